@@ -420,3 +420,7 @@ mutant("c17-main-returns-status-on-error", "C17", "cvss/cvss_calculator.py",
        "        except CVSSError as e:\n            print(e)\n",
        "        except CVSSError as e:\n            print(e)\n            return 1\n",
        "main() returns 1 for an invalid vector: harmless for `python -m`, exit status 1 for the installed console script (sys.exit(main()))")
+mutant("c19-os-write-to-fd2", "C19", "cvss/cvss2.py",
+       "            raise CVSS2MalformedError('Malformed CVSS2 vector, trailing \"/\"')",
+       "            __import__('os').write(2, b'warning: trailing slash\\n')\n            raise CVSS2MalformedError('Malformed CVSS2 vector, trailing \"/\"')",
+       "a diagnostic written with os.write(2, ...) bypasses sys.stderr")
